@@ -26,7 +26,7 @@ def arc_points(rng):
 
 class C17(Property):
     id = "C17"
-    lean_module = "RosuModel.Props.C17Full"   # imports Props/C17Arc.lean, Props/C17Ends.lean and Props/C17.lean; all in namespace Rosu.C17
+    lean_module = "RosuModel.Props.C17Full"   # imports Props/C17ArcEnd.lean (→ Props/C17Arc.lean, Props/C17Ends.lean, Props/C17.lean) and Props/C17ArcTol.lean; all in namespace Rosu.C17
     theorem_modules = ['RosuModel.Props.C17ArcEnd', 'RosuModel.Props.C17ArcTol']   # files whose top-level theorems are all audited
     namespace = "Rosu.C17"
     design_ref = "5.17"
@@ -53,11 +53,15 @@ class C17(Property):
         "thetaLoop_periodic, arc_last_angle) and segment_ends_at_last_all (all four kinds, before length adjustment); pos_eq_self (in exact arithmetic the `==` premise of "
         "joint_vertex_once holds for an identical joint vertex). "
         "libm sin/cos/atan2/acos and IEEE sqrt are NOT proved to satisfy TrigLaws/PolarLaws/SqrtLaws (they cannot, exactly), nor f32/f64 ExactArith. "
-        "The tolerance bounds themselves (Hausdorff distance of the adaptive Bezier flattening with its smoothing step, arc sagitta, "
-        "Catmull chord error) are NOT proved (bezier_within_tolerance_statement is only stated); they are tested: the real code's path is "
+        "ARC TOLERANCE OVER THE REALS (Props/C17ArcTol.lean, Lemmas/ArcSagitta.lean): arc_within_tolerance_real — every accepted arc and its emitted polyline are within Hausdorff distance of the chord sagitta of each "
+        "other, and (arc_step_angle_bound) that sagitta is ≤ (n/(n−1))²·0.1 ≤ 0.4 for n emitted points, not ≤ 0.1: the code uses ⌈θ/divisor⌉ as the number of POINTS (arc_tolerance_naive_false: r = 100, θ = 4·arccos 0.999 "
+        "gives 2 points and sagitta 0.3998; halfCircle_exceeds_tolerance); the |divisor| ≤ EPSILON branch (r ≥ 2^107/10 over ℝ) is excluded by hypothesis. This is a statement about exact real arithmetic; libm stays opaque, "
+        "so the f32/f64 arc is only tested. "
+        "The other tolerance bounds (Hausdorff distance of the adaptive Bezier flattening with its smoothing step, "
+        "Catmull chord error) are NOT proved (bezier_within_tolerance_statement is only stated); the tolerances are tested: the real code's path is "
         "compared with independently evaluated exact curves (De Casteljau, circle through three points, Catmull-Rom polynomial, polyline) "
-        "in both directions with bounds derived from the constants 0.25 / 0.1 / 50 steps, and the model is tied to the code bit-for-bit.")
-    technique = "Lean 4 proof of the structural part + bit-exact differential correspondence + independent exact-curve oracle (test)"
+        "in both directions with bounds derived from the constants 0.25 / 0.1 (arc: 0.4 for curve → path, the proved bound) / 50 steps, and the model is tied to the code bit-for-bit.")
+    technique = "Lean 4 proof of the structural part and, over the reals, of the end-point and arc-tolerance clauses + bit-exact differential correspondence + independent exact-curve oracle (test)"
     required_theorems = ["linear_identity", "dispatch_bspline", "dispatch_perfect_not_three", "dispatch_perfect_three",
                          "arc_refused_collinear", "arc_refused_large", "arc_point_count", "segment_ends_at_last",
                          "piece_starts_at_first", "joint_dedup", "joint_dedup_first", "catmull_points_on_spline", "catmullRom_endpoints",
@@ -72,10 +76,26 @@ class C17(Property):
                          "segment_starts_at_first", "toy_arc_accepted",
                          # Props/C17ArcEnd.lean
                          "arcProps_end_shape", "thetaLoop_periodic", "arc_last_angle", "arc_last_point",
-                         "segment_ends_at_last_all", "pos_eq_self"]
+                         "segment_ends_at_last_all", "pos_eq_self",
+                         # Props/C17ArcTol.lean (over the reals; Lemmas/ArcSagitta.lean): the tolerance clause for circular arcs
+                         "arcSubPoints_real", "arcPhi_sagitta", "arc_eps_branch_radius", "arc_step_angle_bound", "arc_step_angle_bound_radius",
+                         "arc_step_angle_bound_four", "arc_step_le_tolerance_of_intervals", "arc_sagitta_two_points", "arc_tolerance_naive_false",
+                         "arc_eps_branch_violates", "arcProps_real_range", "arc_piece_within", "arc_within_tolerance_real",
+                         "halfCircle_accepted", "halfCircle_exceeds_tolerance"]
     partial_theorems = {
         "bezier_within_tolerance_statement": "NOT proved (stated as a def): Hausdorff bound of adaptive Bezier flattening + final smoothing; evidence = oracle with bound 0.5 (2 x BEZIER_TOLERANCE) + float slack, both directions",
-        "arc_sagitta_bound": "not proved (real-analysis bound r(1-cos(d/2)) <= tol); oracle: circle within 0.1 + slack of the path",
+        "arc_step_angle_bound / arc_within_tolerance_real (the arc tolerance clause; replaces the former unproved `arc_sagitta_bound`)":
+            "now PROVED OVER THE REALS (Props/C17ArcTol.lean with the real instance of Lemmas/RealScalar.lean — sqrt = √, cos = Real.cos, acos = Real.arccos, ceil = ⌈·⌉ — and the real analysis of Lemmas/ArcSagitta.lean: "
+            "chord_sagitta, sagitta_le_of_points), and the true bound is NOT the naive one. approximate_circular_arc takes n = max(⌈θ/(2φ)⌉, 2) POINTS, φ = acos(1 − 0.1/r), i.e. n − 1 intervals, so the step θ/(n−1) can exceed 2φ by "
+            "the factor n/(n−1): arc_step_angle_bound — outside the |divisor| ≤ EPSILON branch the sagitta r(1 − cos(δ/2)) of every chord is ≤ (n/(n−1))²·0.1, hence ≤ 0.4 (arc_step_angle_bound_four); "
+            "arc_tolerance_naive_false — `sagitta ≤ CIRCULAR_ARC_TOLERANCE = 0.1` is FALSE: for r = 100, θ = 4·arccos 0.999 the code emits 2 points and the sagitta is 0.3998 (in general 0.4 − 0.02/r at θ = 4φ: "
+            "arc_sagitta_two_points, supremum 4× the tolerance, not attained); arc_step_le_tolerance_of_intervals — had n − 1 ≥ θ/(2φ) intervals been used the bound 0.1 would hold; "
+            "halfCircle_exceeds_tolerance — end to end on the model function: (1,0),(0,1),(−1,0) is emitted as 4 vertices and the exact-arc point at 30° is more than 0.13 from every point of the polyline. "
+            "arc_within_tolerance_real — for every accepted arc over ℝ the exact arc and the emitted polyline are within Hausdorff distance arcSagitta of each other (both directions: arc_piece_within), and "
+            "arcSagitta ≤ (n/(n−1))²·0.1 ≤ 0.4 unless radius ≥ 2^107/10: the |divisor| ≤ EPSILON branch (two points whatever the opening) is entered only for r ≥ 2^107/10 ≈ 1.6e31 over ℝ "
+            "(arc_eps_branch_radius), is excluded by hypothesis, and there the sagitta is unbounded (arc_eps_branch_violates: r = 2^107, θ = π, sagitta 2^107). The harness oracle already used 0.4 + slack for the "
+            "curve → path direction (and 0.1 + slack for vertex → circle). EXACT ARITHMETIC ONLY: libm sin / cos / acos / atan2 stay opaque in Lean 4.33, so nothing is proved about the f32/f64 arc (where the EPSILON branch "
+            "is entered much earlier, as soon as 1 − 0.1/r rounds to 1 in f32) — that is tested by the oracle",
         "arc_points_on_circle / arc_first_vertex / arc_last_vertex / arc_circle_through_controls / arc_first_point / arc_last_point": "proved in exact arithmetic only, under explicit hypotheses (ExactArith; TrigLaws cos^2+sin^2=1; SqrtLaws; PolarLaws for arc_first_point; additionally PeriodLaws for arc_last_point) that are shown satisfiable on Rat (ExactArith, TrigLaws: rational unit-circle points) and all together on the reals; libm's sin/cos/atan2 and IEEE sqrt/f32/f64 are NOT proved to satisfy them - the float-level statement (vertices on the circle, first/last vertex at the control points, within float slack) is tested by the oracle",
         "catmull chord error": "not proved; oracle bound max|B''|/(8*50^2) per span (+6 px in osu! mode, the simplification threshold)",
         "segment_starts_at_first / segment_ends_at_last_all": "Bezier/B-spline/linear/refused-arc: proved structurally for the whole segment through the adaptive subdivision (bezier_first_point), every arithmetic; Catmull and accepted arcs: exact arithmetic only (ExactArith, PolarLaws) - in f32 the cubic at t=0 is 0.5*(2*x) (exact unless 2*x overflows) and the arc start is centre + r*cos(atan2(..)) (rounded): tested (path[0] = first control point within slack)",
@@ -87,11 +107,13 @@ class C17(Property):
         "axioms: at most propext, Classical.choice, Quot.sound (audited per theorem with #print axioms)",
         "hand-written model Model/Curve.lean tied to /repo by the differential run of this check (bit-exact paths, incl. arcs)",
         "the exact-curve oracle in harness/src/curveprop.rs (f64 De Casteljau / circumcircle / Catmull-Rom / polyline; coarse sampling + ternary refinement)",
-        "libm sin/cos/acos/acosf/atan2 shared by the Lean driver and the Rust code on this machine",
+        "libm sin/cos/acos/acosf/atan2 shared by the Lean driver and the Rust code on this machine; they are the only operations of the driver's instances that remain `opaque` in Lean 4.33 (Float / Float32 are structures "
+        "over the logical model Float.Model and + - * / sqrt, comparisons and — via Model/FloatBits.lean — the casts and ceil reduce in the kernel; the compiled operations are compared with Rust bit for bit by the codec requests "
+        "fop64 / fop32, castf32f64, castf64f32, ceilf64, ceilf32, usizef64): every C17 arc statement is therefore exact-arithmetic (ℝ / ℚ) only",
     ]
     assumptions = [
-        "C17 is partial: the tolerance bounds are tested on the generated inputs, not proved",
-        "oracle tolerances: Bezier 0.5, arc 0.1 (curve->path) and float slack (path->curve), Catmull chord bound per span, osu!-mode Catmull +6.0; float slack 4e-5*scale + 2e-3",
+        "C17 is partial: the Bezier and Catmull tolerance bounds are tested on the generated inputs, not proved; the arc tolerance is proved over the reals only (bound (n/(n−1))²·0.1 ≤ 0.4, radius < 2^107/10), tested for f32/f64",
+        "oracle tolerances: Bezier 0.5, arc 0.1 + slack (path vertex -> exact circle) and 0.4 + slack (exact arc -> path; 0.1·(n/(n−1))² ≤ 0.4 is the bound the constants give, see arc_step_angle_bound), Catmull chord bound per span, osu!-mode Catmull +6.0; float slack 4e-5*scale + 2e-3",
         "a perfect-curve segment may follow either its arc or its Bezier fallback unless it is clearly non-degenerate (|cross| > 1, < 900 sub-points); arcs whose estimated f32 centre error exceeds 0.05 px are the known finding F13, where the arc is required",
         "domain: coordinates in [-4096, 4096], natural length (no requested length)",
     ]
